@@ -609,7 +609,11 @@ def oracle(case, io, reply):
     keys = bibitem_keys(f['bbl'])
     emits_items = eff_style(case) not in ('mini_noread', 'mini_raise', 'mini_raise_syntax')
     if emits_items:
-        if sorted(k.lower() for k in keys) != sorted(k.lower() for k in io['resolved']):
+        low = [k.lower() for k in keys]
+        if len(set(low)) != len(low):
+            # "exactly one item per resolved citation": whatever the resolution, no key may get two items
+            fails.append('one_item_per_citation: the keys %r get more than one item: items %r' % (sorted({k for k in low if low.count(k) > 1}), keys))
+        elif sorted(k.lower() for k in keys) != sorted(k.lower() for k in io['resolved']):
             fails.append('one_item_per_citation: items %r, resolved citations %r' % (keys, io['resolved']))
         else:
             sorts = (reply.get('spec') or {}).get('sorts')
